@@ -130,3 +130,15 @@ def known(fid):
         except IOError:
             _known_ids[0] = set()
     return fid in _known_ids[0]
+
+
+def pick(v, lo, hi):
+    """Concretise a bounded symbolic int by an explicit comparison chain (one path per value,
+    cheaper than model-based realisation).  Native: identity."""
+    if MODE != 'symbolic':
+        return v
+    for k in range(lo, hi + 1):
+        if v == k:
+            return k
+    from crosshair.util import IgnoreAttempt
+    raise IgnoreAttempt('pick out of range')
